@@ -12,7 +12,12 @@ trap 'git -C /repo worktree remove --force "$wt" >/dev/null 2>&1' EXIT
 cd "$wt"
 git apply "$d/patch.diff" || { echo "RESULT $d: PATCH-DOES-NOT-APPLY"; exit 1; }
 go build ./... && go build -tags verif ./... || { echo "RESULT $d: DOES-NOT-BUILD"; exit 1; }
-if go test -vet=off -count=1 ./... >/tmp/vs-suite-$$.log 2>&1; then echo "suite: pass with patch"; else echo "RESULT $d: SUITE-FAILS-WITH-PATCH"; tail -5 /tmp/vs-suite-$$.log; exit 1; fi
+suite_ok=0
+for try in 1 2 3; do
+  if go test -vet=off -count=1 ./... >/tmp/vs-suite-$$.log 2>&1; then suite_ok=1; break; fi
+  echo "suite attempt $try failed in: $(grep -E '^(--- FAIL|FAIL)' /tmp/vs-suite-$$.log | tr '\n' ' ')"
+done
+if [ $suite_ok = 1 ]; then echo "suite: pass with patch"; else echo "RESULT $d: SUITE-FAILS-WITH-PATCH"; grep -E '^(--- FAIL|FAIL|panic)' /tmp/vs-suite-$$.log | head; exit 1; fi
 cp "$d"/demo_test.go "$pkg"/zz_demo_test.go
 if go test -tags verif -vet=off -count=1 -run "$tname" ./"$pkg"/ >/tmp/vs-demo1-$$.log 2>&1; then echo "RESULT $d: DEMO-PASSES-WITH-PATCH (bad)"; exit 1; else echo "demo: fails with patch (good)"; fi
 git checkout -- . ; 
@@ -25,5 +30,5 @@ for id in "$@"; do
   echo "CHECK $id rc=$rc"
   echo "$out" | grep -E "VIOLATION|KNOWN-FINDING|HARNESS-ERROR|OK property|INCONCLUSIVE" | cut -c1-300 | head -5
 done
-rm -rf /verif/.work/*-$(echo -n "$wt" | sha1sum | cut -c1-8) /tmp/vs-*-$$.log
+rm -rf /verif/.work/*-$(echo -n "$wt" | sha1sum | cut -c1-8)-* /tmp/vs-*-$$.log
 echo "RESULT $d: CONFIRMED"
